@@ -2090,22 +2090,35 @@ class StridedInterval:
         # Shift the lower_bound and upper_bound by all possible amounts, and
         # get min/max values from all the resulting values
 
+        # the members as a run of integers that does not wrap: an interval going past zero ends 2**bits later
+        lower_bound = self.lower_bound
+        upper_bound = self.upper_bound if self.lower_bound <= self.upper_bound else self.upper_bound + 2**self.bits
+
         new_lower_bound = None
         new_upper_bound = None
         for amount in range(lower, upper + 1):
-            lower_shifted = self.lower_bound << amount
+            lower_shifted = lower_bound << amount
             if new_lower_bound is None or lower_shifted < new_lower_bound:
                 new_lower_bound = lower_shifted
-            upper_shifted = self.upper_bound << amount
+            upper_shifted = upper_bound << amount
             if new_upper_bound is None or upper_shifted > new_upper_bound:
                 new_upper_bound = upper_shifted
+
+        if new_upper_bound - new_lower_bound >= 2**self.bits:
+            # the shifted values go all the way round the circle: reducing the two ends modulo 2**bits would leave
+            # an arc that misses most of them
+            return StridedInterval.top(self.bits, uninitialized=self.uninitialized)
 
         # NOTE: If this is an arithmetic operation, we should take care
         # of sign-changes.
 
+        # with a single shift amount the spacing is the shifted stride; with several, the values of different
+        # amounts are only known to differ by multiples of what the stride and the lower bound have in common
+        stride = self.stride if lower == upper else math.gcd(self.stride, lower_bound)
+
         ret = StridedInterval(
             bits=self.bits,
-            stride=max(self.stride << lower, 1),
+            stride=max(stride << lower, 1),
             lower_bound=new_lower_bound,
             upper_bound=new_upper_bound,
             uninitialized=self.uninitialized,
